@@ -22,7 +22,6 @@ func newThrModel() *thrModel {
 	return &thrModel{thr: map[string]int{}, sinks: map[string]int{}, set: map[string]bool{}}
 }
 
-func isSinkID(id string) bool { return len(id) > 0 && id[0] == 'k' }
 
 // checkStatus is C02's oracle for one Send.
 func checkStatus(run *rt.Run, w *World, o *SendObs, thr, thrSinks int, ctxInfo any) {
@@ -77,15 +76,37 @@ func checkStatus(run *rt.Run, w *World, o *SendObs, thr, thrSinks int, ctxInfo a
 			logErrs = append(logErrs, e.RetErr)
 		}
 	}
-	// complete-sinks is exactly the sink sub-multiset of complete
-	var sinkSub []string
-	for _, id := range complete {
-		if isSinkID(id) {
-			sinkSub = append(sinkSub, id)
+	// complete-sinks is exactly the sink sub-multiset of complete. Whether a reported id stands for a sink is read
+	// off the node objects that ended a traversal under that id in this Send (an id does not fix a node type: it
+	// may have been re-registered, and older pipeline versions keep the objects they captured).
+	{
+		sinkEnd, otherEnd := map[string]int{}, map[string]int{}
+		for _, id := range okIDs {
+			otherEnd[id]++
 		}
-	}
-	if !multisetEq(sinkSub, sinks) {
-		run.Violation("history-pattern:complete-sinks", "CompleteSinks is not the sub-multiset of Complete that are sinks", wit())
+		for _, id := range okSinkIDs {
+			sinkEnd[id]++
+			otherEnd[id]--
+		}
+		nComplete, nSinks := map[string]int{}, map[string]int{}
+		for _, id := range complete {
+			nComplete[id]++
+		}
+		for _, id := range sinks {
+			nSinks[id]++
+		}
+		for id, n := range nSinks {
+			if n > nComplete[id] || n > sinkEnd[id] {
+				run.Violation("history-pattern:complete-sinks", fmt.Sprintf("CompleteSinks names %s %d times; Complete names it %d times and %d traversals ended successfully at a sink registered under that id", id, n, nComplete[id], sinkEnd[id]), wit())
+				break
+			}
+		}
+		for id, n := range nComplete {
+			if n-nSinks[id] > otherEnd[id] && !o.Cancelled {
+				run.Violation("history-pattern:complete-sinks", fmt.Sprintf("Complete names %s %d times, CompleteSinks %d times, but only %d traversals ended successfully at a node under that id that is not a sink", id, n, nSinks[id], otherEnd[id]), wit())
+				break
+			}
+		}
 	}
 	// warnings: errors really returned by nodes during this Send, each at most once
 	seenW := map[error]int{}
